@@ -113,13 +113,26 @@ func init() {
 			if tier == "thorough" {
 				n = 2500
 			}
-			words := []string{"red", "blue", "re", "x y", "日本", " \"q\" #", "a\"b", strings.Repeat("a", 32)}
 			longInts := func(k int) TV {
 				l := make([]TV, k)
 				for i := range l {
 					l[i] = tvInt("int", int64(i%40))
 				}
 				return tvSlice("[]int", l...)
+			}
+			words := []string{"red", "blue", "re", "x y", "日本", " \"q\" #", "a\"b", strings.Repeat("a", 32)}
+			// dedicated: a kept interval with bounds beyond float64 precision next to a long list (so the
+			// conjunction is cached), probed at both edges, on cold and warm builds
+			for _, kind := range []string{"kgroups", "compact"} {
+				for _, a := range []int64{1<<53 + 1, 1700000000000000101, -(1<<61 + 3001)} {
+					c := eCase{Kind: kind, Policy: "error", Configs: map[int]string{2: "ext_range"}}
+					c.Docs = []eDoc{{ID: 1, Cons: []eConj{{{F: 0, Inc: true, V: longInts(4)}, {F: 2, Inc: true, Op: 3, V: tvSlice("[]int64", tvInt("int64", a), tvInt("int64", a+3000))}}}},
+						{ID: 2, Cons: []eConj{{{F: 0, Inc: true, V: longInts(5)}, {F: 2, Inc: false, Op: 1, V: tvInt("int64", a+7)}}}}}
+					for _, d := range []int64{-300, -2, -1, 0, 1, 2, 6, 7, 8, 9, 300, 2998, 2999, 3000, 3001, 3300} {
+						c.Queries = append(c.Queries, eQuery{A: []eAssign{{F: 0, V: tvInt("int", 1)}, {F: 2, V: tvInt("int64", a+d)}}})
+					}
+					add(cacheIn{Cache: true, Case: c, Thr: 2, Seed: 7, MissPct: 0, DropPct: 0})
+				}
 			}
 			for i := 0; i < n; i++ {
 				thr := []int{0, 2, 512}[i%3]
@@ -151,9 +164,16 @@ func init() {
 								}
 								cj = append(cj, eExpr{F: 1, Inc: inc, V: tvSlice("[]string", l...)})
 							case 3: // wide range
-								cj = append(cj, eExpr{F: 2, Inc: inc, Op: 1 + r.Intn(2), V: tvInt("int64", r.I64(-50, 3000))})
+								bound := r.I64(-50, 3000)
+								if r.Chance(25) { // beyond float64 precision: the cache codec must keep every bit
+									bound = pick(r, []int64{1<<53 + 1, -(1<<53 + 3), 1700000000000000101, 1<<62 - 1, -(1<<62 - 5)})
+								}
+								cj = append(cj, eExpr{F: 2, Inc: inc, Op: 1 + r.Intn(2), V: tvInt("int64", bound)})
 							case 4:
 								a := r.I64(-10, 2000)
+								if r.Chance(25) {
+									a = pick(r, []int64{1<<53 + 1, -(1<<53 + 3000), 1700000000000000101, 1<<61 + 7})
+								}
 								cj = append(cj, eExpr{F: 2, Inc: inc, Op: 3, V: tvSlice("[]int64", tvInt("int64", a), tvInt("int64", a+int64(1+r.Intn(3000))))})
 							case 5: // range field: long `in` list (cache trigger for the range holder)
 								cj = append(cj, eExpr{F: 2, Inc: inc, V: longInts(big + r.Intn(3))})
@@ -174,7 +194,11 @@ func init() {
 						a = append(a, eAssign{F: 1, V: tvStr(pick(r, words) + " " + pick(r, words))})
 					}
 					if r.Chance(80) {
-						a = append(a, eAssign{F: 2, V: tvInt("int64", r.I64(-60, 3100))})
+						v := r.I64(-60, 3100)
+						if r.Chance(30) {
+							v = pick(r, []int64{1<<53 + 1, 1<<53 + 2, -(1<<53 + 3), -(1<<53 + 2999), 1700000000000000100, 1700000000000000101, 1700000000000000200, 1<<61 + 7, 1<<61 + 8, 1<<62 - 1, 1<<62 - 2})
+						}
+						a = append(a, eAssign{F: 2, V: tvInt("int64", v)})
 					}
 					if r.Chance(30) {
 						a = append(a, eAssign{F: 3, V: tvStr(pick(r, words))})
